@@ -4,7 +4,7 @@
 # negative controls (behaviour-preserving refactorings: must stay silent: exit 0), each applied to a
 # scratch worktree of /repo. Prints one line per case and a summary; exit 0 iff everything is as expected.
 set -u
-export GOFLAGS=-mod=mod GOPROXY=off GOSUMDB=off GOTOOLCHAIN=local GOWORK=off
+export GOFLAGS="-mod=mod -trimpath" GOPROXY=off GOSUMDB=off GOTOOLCHAIN=local GOWORK=off
 vd=$1; id=$2; tag=${3:-$id}
 wt=/tmp/rg_$tag; sv=/tmp/rg_${tag}_v
 bad=0
